@@ -41,28 +41,28 @@ variable {F : Type} (C : Codec F)
     the limit; timestamps are non-decreasing; and the entries are exactly the last `max` elements of the
     unbounded reference log (`specRun`: an immediately repeated query replaces its predecessor, `load`
     returns to the log as it was at the last `save`, `clear` empties it, a new process starts empty). -/
-theorem bounded_ordered {valid : Bytes → Prop} (L : C.Laws valid) (m t0 : Int) (ops : List (Op F))
-    (htool : ∀ op ∈ ops, op.isTool = true) (hvalid : ∀ op ∈ ops, op.Valid valid) :
+theorem bounded_ordered {valid : Bytes → Prop} {okT : Int → Prop} (L : Codec.LawsOn C valid okT (fun _ => True)) (m t0 : Int) (ops : List (Op F))
+    (htool : ∀ op ∈ ops, op.isTool = true) (hvalid : OpsValid valid okT (fun _ => True) t0 ops) :
     ∃ y, run C P (init P m t0) ops = .ok y ∧
       0 < y.h.maxSize ∧
       (y.h.entries.length : Int) ≤ y.h.maxSize ∧
       y.h.entries.Pairwise (fun a b => a.ts ≤ b.ts) ∧
       y.h.entries.map Entry.core = lastN y.h.maxSize.toNat (specRun ⟨[], none, t0⟩ ops).log := by
   have hpos := new_maxSize_pos gen_params_ok m
-  obtain ⟨y, hy, hi⟩ := run_inv C L P (Q := fun k => 0 < k) (fun _ h => h) ops
+  obtain ⟨y, hy, hi⟩ := run_inv C L P (Q := fun k => 0 < k) (fun _ h => h) (fun _ _ => trivial) ops
     (init_inv C P m t0 hpos hpos) (fun op ho => Op.ok_of_isTool gen_params_ok op (htool op ho)) hvalid
   exact ⟨y, hy, hi.max, hi.bounded, hi.chrono.1, hi.refines⟩
 
 /-- The limit in force is the requested one (or the default for a non-positive request) as long as every
     process on the file asks for the same effective size — which is what the CLI does (`cli_max_positive`). -/
-theorem limit_is_requested {valid : Bytes → Prop} (L : C.Laws valid) (m t0 : Int) (ops : List (Op F))
+theorem limit_is_requested {valid : Bytes → Prop} {okT : Int → Prop} (L : Codec.LawsOn C valid okT (fun _ => True)) (m t0 : Int) (ops : List (Op F))
     (hsame : ∀ op ∈ ops, op.Ok P (fun k => k = (if m ≤ 0 then Wtf.Gen.History.newDefault else m)))
-    (hvalid : ∀ op ∈ ops, op.Valid valid) :
+    (hvalid : OpsValid valid okT (fun _ => True) t0 ops) :
     ∃ y, run C P (init P m t0) ops = .ok y ∧
       y.h.maxSize = (if m ≤ 0 then Wtf.Gen.History.newDefault else m) := by
   have hpos := new_maxSize_pos gen_params_ok m
   obtain ⟨y, hy, hi⟩ := run_inv C L P (Q := fun k => k = (if m ≤ 0 then Wtf.Gen.History.newDefault else m))
-    (fun k hk => by rw [hk]; exact hpos) ops (init_inv C P m t0 rfl hpos) hsame hvalid
+    (fun k hk => by rw [hk]; exact hpos) (fun _ _ => trivial) ops (init_inv C P m t0 rfl hpos) hsame hvalid
   exact ⟨y, hy, hi.max⟩
 
 /-- **Immediate duplicate.**  Adding the query of the last entry again replaces that entry (new
@@ -94,23 +94,23 @@ theorem add_new_appends (s : State) (hm : 0 < s.maxSize) (e : Entry)
 /-- **Save then load gives back the same entries** (and the same limit): loading the bytes `Save` wrote
     for `s` yields exactly `s` and no error — for ANY receiver state `r` (a fresh `NewSearchHistory` of any
     size, or a live history holding other entries). -/
-theorem roundtrip {valid : Bytes → Prop} (L : C.Laws valid) (r s : State) (hm : 0 < s.maxSize)
-    (hv : ∀ e ∈ s.entries, valid e.query ∧ valid e.context) :
+theorem roundtrip {valid : Bytes → Prop} {okT : Int → Prop} (L : Codec.LawsOn C valid okT (fun _ => True)) (r s : State) (hm : 0 < s.maxSize)
+    (hv : ∀ e ∈ s.entries, valid e.query ∧ valid e.context ∧ okT e.ts) :
     load C P r (some (saveBytes C s)) = (s, none) :=
-  load_saveBytes C L P r s hm hv
+  load_saveBytes C L P r s hm trivial (fun e he => ⟨(hv e he).1, (hv e he).2.1, (hv e he).2.2, trivial, trivial⟩)
 
 /-- The same inside histories: in every state reachable by adds/saves/loads/clears, `save` followed by `load`
     changes nothing, and a new process (any requested size `m'`) that loads the saved file holds exactly the
     same entries under the same limit (histories may themselves contain such restarts). -/
-theorem roundtrip_history {valid : Bytes → Prop} (L : C.Laws valid) (m t0 : Int) (ops : List (Op F))
-    (htool : ∀ op ∈ ops, op.isTool = true) (hvalid : ∀ op ∈ ops, op.Valid valid) :
+theorem roundtrip_history {valid : Bytes → Prop} {okT : Int → Prop} (L : Codec.LawsOn C valid okT (fun _ => True)) (m t0 : Int) (ops : List (Op F))
+    (htool : ∀ op ∈ ops, op.isTool = true) (hvalid : OpsValid valid okT (fun _ => True) t0 ops) :
     ∃ y y', run C P (init P m t0) ops = .ok y ∧ run C P (init P m t0) (ops ++ [.save, .load]) = .ok y' ∧
       y'.h = y.h ∧ ∀ m' : Int, (load C P (new P m') (some (saveBytes C y.h))) = (y.h, none) := by
   have hpos := new_maxSize_pos gen_params_ok m
-  obtain ⟨y, hy, hi⟩ := run_inv C L P (Q := fun k => 0 < k) (fun _ h => h) ops
+  obtain ⟨y, hy, hi⟩ := run_inv C L P (Q := fun k => 0 < k) (fun _ h => h) (fun _ _ => trivial) ops
     (init_inv C P m t0 hpos hpos) (fun op ho => Op.ok_of_isTool gen_params_ok op (htool op ho)) hvalid
   have hrt : ∀ r : State, load C P r (some (saveBytes C y.h)) = (y.h, none) :=
-    fun r => load_saveBytes C L P r y.h hi.max hi.validE
+    fun r => load_saveBytes C L P r y.h hi.max trivial hi.validE
   have happ : ∀ (ops1 ops2 : List (Op F)) (a b : Sys F), run C P a ops1 = .ok b →
       run C P a (ops1 ++ ops2) = run C P b ops2 := by
     intro ops1
